@@ -15,7 +15,7 @@ PROP = {
         {"name": "cond", "driver": "drv_cond",
          "quick": {"n": 600}, "thorough": {"n": 8000, "seeds": 4}},
     ],
-    "exhaustive": False,
+    "exhaustive": False,  # the conf part enumerates all graphs over three interfaces (160) on every run
     "technique": "Lean 4 proof over a line-by-line port of distinctConformances and a core calculus of condition "
                  "wrappers (interpreter) / condition inlining (VM desugaring) + correspondence stream on generated "
                  "interface DAGs in both engines",
@@ -30,8 +30,8 @@ PROP = {
                   "trace as the interpreter's wrappers whenever the before statements cannot fault and the "
                   "post-conditions use only their own before-variables (desugar_equiv_partial, enforced_vm_partial; "
                   "programSafe is a decidable sufficient condition); without that hypothesis the engines differ "
-                  "(desugar_differs_witness, known finding vm-before-hoisted-over-pre). Tied to /repo by the stream `cond`: (a) random conformance DAGs declared in "
-                  "Cadence, EffectiveInterfaceConformances() of every type from the real checker vs the port, plus the "
+                  "(desugar_differs_witness, known finding vm-before-hoisted-over-pre). Tied to /repo by the stream `cond`: (a) all 160 conformance graphs over three interfaces with every ordered explicit conformance "
+                  "list, and random conformance DAGs over up to seven, declared in Cadence, EffectiveInterfaceConformances() of every type from the real checker vs the port, plus the "
                   "closure spec judged on the Go answer alone; (b) generated composites implementing interface DAGs "
                   "(diamonds) with emit/test conditions using before and result at every level, default and "
                   "overriding implementations, nested calls, run on interpreter, VM and VM+peephole: outcome, log and "
